@@ -340,8 +340,11 @@ void pl_lemma_wd_add(void)
 {
   Z x; int c;
   __CPROVER_assume(lemma_wd_add_REQ(x, c));
+  REVEAL_WDAY(x); REVEAL_WDAY((Z)(x) + (c)); REVEAL_WDAY((Z)(x) - (c));
   STEP(FD((Z)((Z)(x) + (c)) + WD_C, 7) == FD((Z)(x) + WD_C, 7) + FD(FM((Z)(x) + WD_C, 7) + (c), 7), "quotient of x+c");
   STEP(FD((Z)((Z)(x) - (c)) + WD_C, 7) == FD((Z)(x) + WD_C, 7) + FD(FM((Z)(x) + WD_C, 7) - (c), 7), "quotient of x-c");
+  STEP(WD((Z)(x) + (c)) == FM(WD(x) + (c), 7), "weekday of x+c");
+  STEP(WD((Z)(x) - (c)) == FM(WD(x) - (c), 7), "weekday of x-c");
   __CPROVER_assert(lemma_wd_add_ENS(x, c), "lemma_wd_add.ENS");
 }
 void pl_lemma_wd_cong(void) { Z a, b; __CPROVER_assume(lemma_wd_cong_REQ(a, b)); __CPROVER_assert(lemma_wd_cong_ENS(a, b), "lemma_wd_cong.ENS"); }
